@@ -356,7 +356,9 @@ def tie_A(res, client, model, runs, label=None, pre=None):
                 tl = [l for l in block.split("\n") if l.startswith("T ")]
                 res.sample({"client": client, "model": model, "variant": var, "trace_excerpt": tl[:14]})
     res.add("evaluations", total)
+    res.add("programs", total)
     res.add("traces_validated_against_impl", total)
+    res.cov["disagreements_checked"] = res.cov.get("disagreements_checked", 0) + total
     res.add("model_steps_matched", steps_total)
     res.cov["distinct_nontrivial"] = res.cov.get("distinct_nontrivial", 0) + len(nontrivial)
     res.cov["distinct_traces"] = res.cov.get("distinct_traces", 0) + len(hashes)
@@ -473,6 +475,7 @@ def tie_S(res, client, runs, label=None):
     res.add("evaluations", total)
     res.add("programs", total)
     res.add("traces_validated_against_impl", total)
+    res.cov["disagreements_checked"] = res.cov.get("disagreements_checked", 0) + total
     res.cov.setdefault("per_variant", {}).update({label + ":" + k: v for k, v in per_variant.items()})
     allnotes = res.cov.setdefault("snapshot_notes", {})
     for k, v in notes.items():
